@@ -29,7 +29,8 @@ import sys
 
 VERIF = os.path.dirname(os.path.dirname(os.path.abspath(__file__)))
 REPO = os.environ.get("VERIF_REPO", "/repo")
-OUT = os.path.join(VERIF, "coq", "gen", "PosixGen.v")      # coq/gen/PosixGen.v
+OUT = os.path.join(VERIF, "coq", "gen", "PosixGen.v")      # coq/gen/PosixGen.v   (C08: tzrangebase, tzrange, tzstr, tzlocal)
+OUT2 = os.path.join(VERIF, "coq", "gen", "IcalGen.v")      # coq/gen/IcalGen.v    (C17: _tzicalvtz, tzical)
 
 KEYWORDS = {"end", "at", "in", "as", "fix", "fun", "let", "match", "return", "then", "else", "if", "with",
             "type", "using", "where", "for", "mod"}
@@ -40,6 +41,8 @@ class TranslateError(Exception):
 
 
 def cn(n):
+    if n.startswith("@"):
+        return n[1:].replace(".", "_")
     return n + "_" if n in KEYWORDS else n
 
 
@@ -60,7 +63,17 @@ class V(object):
 
 COQTY = {"Z": "Z", "B": "bool", "OTR": "option (Z * Z)", "TR": "(Z * Z)", "ONAME": "option (list Z)",
          "CHARS": "list Z", "OZ": "option Z", "COMP": "comp", "DTF": "(Z * bool)", "RD": "rdelta",
-         "ATTR": "tzattr", "DELTA": "delta", "OWD": "option (Z * Z)"}
+         "ATTR": "tzattr", "DELTA": "delta", "OWD": "option (Z * Z)", "DARG": "darg", "ZONE": "zone"}
+
+# attributes an __init__ writes on self -> (type, field of the zone record or None when not stored in it)
+SLOTS = {"_std_abbr": "ONAME", "_dst_abbr": "ONAME", "_std_offset": "Z", "_dst_offset": "Z",
+         "_start_delta": "DELTA", "_end_delta": "DELTA", "hasdst": "B", "_dst_base_offset_": "Z", "_s": "CHARS"}
+ZONE_FIELDS = ["_std_abbr", "_dst_abbr", "_std_offset", "_dst_offset", "_start_delta", "_end_delta", "hasdst"]
+ZONE_GET = {"_std_abbr": "z_std_abbr", "_dst_abbr": "z_dst_abbr", "_std_offset": "z_std_off",
+            "_dst_offset": "z_dst_off", "_start_delta": "z_start", "_end_delta": "z_end", "hasdst": "z_hasdst"}
+RES_ATTRS = {"stdabbr": ("r_stdabbr", "ONAME"), "stdoffset": ("r_stdoffset", "OZ"), "dstabbr": ("r_dstabbr", "ONAME"),
+             "dstoffset": ("r_dstoffset", "OZ"), "start": ("r_start", "ATTR"), "end": ("r_end", "ATTR"),
+             "any_unused_tokens": ("r_unused", "B")}
 
 SELF = {
     "zone": dict(binder="(z : zone)", args="z", attrs={
@@ -76,6 +89,7 @@ SELF = {
         "_dst_offset": ("(l_dst_off std alt daylight)", "Z"),
         "_dst_saved": ("(l_dst_saved std alt daylight)", "Z"), "_tznames": ("", "NAMES")}),
     "ical": dict(binder="(cs : list comp)", args="cs", attrs={}),
+    "init": dict(binder="", args="", attrs={}),
 }
 
 COMP_ATTRS = {"tzoffsetto": ("c_to", "Z"), "tzoffsetfrom": ("c_from", "Z"), "tzoffsetdiff": ("c_diff", "Z"),
@@ -96,12 +110,17 @@ METHODS = [
     ("tz/_common.py", "tzrangebase", "tzname", "gen_tzname", "zone", [("dt", "DTF")], "ONAME"),
     ("tz/_common.py", "tzrangebase", "fromutc", "gen_fromutc", "zone", [("dt", "DTU")], "DTF"),
     ("tz/tz.py", "tzstr", "_delta", "gen_tzstr_delta", "offsets", [("x", "ATTR"), ("isend", "B")], "RD"),
+    ("tz/tz.py", "tzrange", "__init__", "gen_tzrange_init", "init",
+     [("stdabbr", "ONAME"), ("stdoffset", "OZ"), ("dstabbr", "ONAME"), ("dstoffset", "OZ"), ("start", "DARG"),
+      ("end", "DARG")], "ZONE"),
+    ("tz/tz.py", "tzstr", "__init__", "gen_tzstr_init", "init", [("s", "CHARS"), ("posix_offset", "B")], "ZONE"),
     ("tz/tz.py", "tzlocal", "_naive_is_dst", "gen_l_naive_is_dst", "local", [("dt", "DT")], "B"),
     ("tz/tz.py", "tzlocal", "is_ambiguous", "gen_l_is_ambiguous", "local", [("dt", "DT")], "B"),
     ("tz/tz.py", "tzlocal", "_isdst", "gen_l_isdst", "local", [("dt", "DTF")], "B"),
     ("tz/tz.py", "tzlocal", "utcoffset", "gen_l_utcoffset", "local", [("dt", "DTF")], "Z"),
     ("tz/tz.py", "tzlocal", "dst", "gen_l_dst", "local", [("dt", "DTF")], "Z"),
     ("tz/tz.py", "tzlocal", "tzname", "gen_l_tzname", "local", [("dt", "DTF")], "CHARS"),
+    ("tz/tz.py", "tzical", "_parse_offset", "gen_parse_offset", None, [("s", "CHARS")], "Z"),
     ("tz/tz.py", "_tzicalvtz", "_find_compdt", "gen_find_compdt", "ical", [("comp", "COMP"), ("dt", "DTF")], "OZ"),
     ("tz/tz.py", "_tzicalvtz", "utcoffset", "gen_ic_utcoffset", "ical", [("dt", "DTF")], "Z"),
     ("tz/tz.py", "_tzicalvtz", "dst", "gen_ic_dst", "ical", [("dt", "DTF")], "Z"),
@@ -120,6 +139,7 @@ SELF_CALLS = {
               "_isdst": ("gen_l_isdst libc std alt daylight sn dn %s %s", ["DTF"], "B", True)},
     "ical": {"_find_comp": ("comp_at cs %s %s", ["DTF"], "COMP", False)},
     "offsets": {},
+    "init": {},
 }
 
 
@@ -164,6 +184,8 @@ class Tr(object):
             return V("(negb (%s))" % " && ".join("is_none kw_%s" % k for k in self.kw_seen), "B")
         if v.ty == "CHARS":
             return V("(negb (match %s with [] => true | _ => false end))" % v.term, "B", v.pure)
+        if v.ty == "DELTA" and v.pure:
+            return V("(delta_bool %s)" % v.term, "B")
         raise TranslateError("truth value of type %s" % v.ty)
 
     def expr(self, e, env):
@@ -186,7 +208,10 @@ class Tr(object):
         if isinstance(e, ast.Tuple):
             vs = [self.expr(x, env) for x in e.elts]
             if len(vs) == 2 and all(v.ty in ("Z", "DT") for v in vs):
-                return self.bind(vs, lambda t: V("(%s, %s)" % (t[0], t[1]), "TR"))
+                out = self.bind(vs, lambda t: V("(%s, %s)" % (t[0], t[1]), "TR"))
+                if all(v.pure for v in vs):
+                    out.parts = [v.term for v in vs]
+                return out
             if all(v.ty in ("Z", "CHARS") and v.pure for v in vs):
                 return V([v.term for v in vs], "TUP_" + vs[0].ty)
             raise TranslateError("tuple of %s" % [v.ty for v in vs])
@@ -248,11 +273,27 @@ class Tr(object):
                     out = V("(rbind %s (fun %s => if %s then %s else %s))" % (
                         (v.term, t, t, rhs, "Ok false") if is_and else (v.term, t, t, "Ok true", rhs)), "B", False)
             return out
+        if isinstance(e, ast.Subscript) and isinstance(e.slice, ast.Slice):
+            base = self.expr(e.value, env)
+            lo, hi = e.slice.lower, e.slice.upper
+            if base.ty != "CHARS" or not base.pure or e.slice.step is not None or \
+                    any(x is not None and not (isinstance(x, ast.Constant) and isinstance(x.value, int) and x.value >= 0)
+                        for x in (lo, hi)):
+                raise TranslateError("slice %s" % ast.unparse(e))
+            a = lo.value if lo is not None else 0
+            t = base.term if a == 0 else "(skipn %d %s)" % (a, base.term)
+            if hi is not None:
+                t = "(firstn %d %s)" % (hi.value - a, t)
+            return V(t, "CHARS")
         if isinstance(e, ast.Subscript):
             base = self.expr(e.value, env)
+            if base.ty == "CHARS" and base.pure and isinstance(e.slice, ast.Constant) and e.slice.value == 0:
+                return V("(hd 0 %s)" % base.term, "CH")
             idx = self.expr(e.slice, env)
             if base.ty == "NAMES" and idx.ty == "B":
                 return self.bind([idx], lambda t: V("(if %s then dn else sn)" % t[0], "CHARS"))
+            if base.ty == "TR" and idx.ty == "B" and getattr(base, "parts", None):
+                return self.bind([idx], lambda t: V("(if %s then %s else %s)" % (t[0], base.parts[1], base.parts[0]), "Z"))
             if base.ty.startswith("TUP_") and idx.ty == "B" and len(base.term) == 2:
                 return self.bind([idx], lambda t: V("(if %s then %s else %s)" % (t[0], base.term[1], base.term[0]),
                                                     base.ty[4:]))
@@ -279,6 +320,9 @@ class Tr(object):
         if base.ty == "ATTR" and e.attr in ATTR_ATTRS:
             f, ty = ATTR_ATTRS[e.attr]
             return V("(%s %s)" % (f, base.term), ty)
+        if base.ty == "TZRES" and e.attr in RES_ATTRS:
+            f, ty = RES_ATTRS[e.attr]
+            return V("(%s %s)" % (f, base.term), ty)
         if base.ty == "TM" and e.attr == "tm_isdst":
             return V(base.term, "B", base.pure)
         raise TranslateError("attribute .%s of %s" % (e.attr, base.ty))
@@ -303,6 +347,18 @@ class Tr(object):
                 if v.ty in ("DT", "DTF") and v.fold is not None:
                     return V(v.fold, "B")
                 raise TranslateError("self._fold of %s" % v.ty)
+            if self.kind == "init" and f.attr == "_delta" and len(e.args) == 1 and set(kw) <= {"isend"}:
+                x = self.expr(e.args[0], env)
+                so, do = env.get("@self._std_offset"), env.get("@self._dst_offset")
+                isend = "false"
+                if "isend" in kw:
+                    if not (isinstance(kw["isend"], ast.Constant) and kw["isend"].value in (0, 1)):
+                        raise TranslateError("isend argument")
+                    isend = "true" if kw["isend"].value else "false"
+                if x.ty == "ATTR" and so is not None and do is not None:
+                    return V("(rbind (gen_tzstr_delta %s %s %s %s) (fun r_ => Ok (DRd r_)))" % (
+                        so.term, do.term, x.term, isend), "DELTA", False)
+                raise TranslateError("self._delta call")
             sc = SELF_CALLS.get(self.kind, {}).get(f.attr)
             if sc is None or kw or len(e.args) != len(sc[1]):
                 raise TranslateError("call self.%s" % f.attr)
@@ -334,11 +390,38 @@ class Tr(object):
             if r.ty == "RRULE" and d.ty in ("DT", "DTF") and r.pure and d.pure:
                 return V("(before_inc %s %s None)" % (r.term, d.term), "OZ")
         # s.strip()
+        if isinstance(f, ast.Attribute) and f.attr == "strip" and not e.args and not kw:
+            v = self.expr(f.value, env)
+            if v.ty == "CHARS" and v.pure:
+                return V("(strip %s)" % v.term, "CHARS")
         dotted = ast.unparse(f)
+        if dotted == "bool" and len(e.args) == 1 and not kw:
+            return self.truth(self.expr(e.args[0], env))
+        if dotted == "parser._parsetz" and len(e.args) == 1 and not kw:
+            v = self.expr(e.args[0], env)
+            if v.ty == "CHARS" and v.pure:
+                return V("(tzparse %s)" % v.term, "OTZRES", False)
+        if dotted == "datetime.timedelta" and not e.args and len(kw) == 1:
+            (k_, val), = kw.items()
+            v = self.expr(val, env)
+            if v.ty == "Z" and v.pure and k_ in ("seconds", "hours"):
+                return V(v.term if k_ == "seconds" else "(%s * 3600)" % v.term, "Z")
+        if dotted == "relativedelta.relativedelta" and not e.args and set(kw) == {"hours", "month", "day", "weekday"}:
+            vs = {k_: self.expr(x, env) for k_, x in kw.items()}
+            if all(vs[k_].ty == "Z" and vs[k_].pure for k_ in ("hours", "month", "day")) and vs["weekday"].ty == "OWD":
+                return V("(rbind (rd_mk (mkArgs 0 %s 0 0 (Some %s) (Some %s) %s None None)) (fun r_ => Ok (DRd r_)))" % (
+                    vs["hours"].term, vs["month"].term, vs["day"].term, vs["weekday"].term), "DELTA", False)
+        if dotted == "len" and len(e.args) == 1 and not kw:
+            v = self.expr(e.args[0], env)
+            if v.ty == "CHARS" and v.pure:
+                return V("(length %s)" % v.term, "LEN")
         if dotted == "int" and len(e.args) == 1 and not kw:
             v = self.expr(e.args[0], env)
             if v.ty == "B":
                 return v
+            if v.ty == "CHARS" and v.pure:       # int() of text: ValueError unless [sign] digits
+                return V("(match py_int_simple %s with Some v_ => Ok v_ | None => Err EValue end)" % v.term,
+                         "Z", False)
         if dotted == "datetime.datetime" and len(e.args) == 3 and not kw and \
                 all(isinstance(a, ast.Constant) and a.value == 1 for a in e.args[1:]):
             y = self.expr(e.args[0], env)
@@ -387,10 +470,30 @@ class Tr(object):
             neg = isinstance(ops[0], ast.IsNot)
             if a.ty in ("DT", "DTF", "B", "SOMEB", "Z"):      # typed as never None
                 return V("true" if neg else "false", "B")
-            if a.ty in ("OZ", "OTR", "ONAME", "OWD"):
+            if a.ty == "DARG":
+                return V("(negb (darg_is_none %s))" % a.term if neg else "(darg_is_none %s)" % a.term, "B")
+            if a.ty in ("OZ", "OTR", "ONAME", "OWD", "OTZRES"):
                 t = "(is_none %s)" % a.term
                 return self.bind([a], lambda ts: V("(negb (is_none %s))" % ts[0] if neg else "(is_none %s)" % ts[0], "B"))
             raise TranslateError("is None on %s" % a.ty)
+        if len(ops) == 1 and isinstance(ops[0], (ast.In, ast.Eq)) and vals[0].ty == "CH":
+            a, b = vals
+            opts = b.term if b.ty == "TUP_CHARS" else [b.term] if b.ty == "CHARS" else None
+            if opts is None or (isinstance(ops[0], ast.Eq) and b.ty != "CHARS"):
+                raise TranslateError("character comparison with %s" % b.ty)
+            codes = []
+            for o_ in opts:
+                inner = o_.strip("[]")
+                if ";" in inner or not inner:
+                    raise TranslateError("character compared with a string of length != 1")
+                codes.append(inner)
+            return V("(" + " || ".join("(%s =? %s)" % (a.term, c_) for c_ in codes) + ")", "B")
+        if len(ops) == 1 and isinstance(ops[0], ast.In) and vals[0].ty == "ONAME" and vals[1].ty == "TUP_CHARS":
+            a, b = vals
+            return V("(match %s with Some a_ => %s | None => false end)" % (
+                a.term, " || ".join("list_eqb a_ %s" % o_ for o_ in b.term)), "B")
+        if len(ops) == 1 and isinstance(ops[0], ast.Eq) and vals[0].ty == "LEN" and vals[1].ty == "Z":
+            return V("(Nat.eqb %s %s)" % (vals[0].term, vals[1].term), "B")
         sym = {ast.Lt: "<?", ast.LtE: "<=?", ast.Eq: "=?"}
         parts = []
 
@@ -435,9 +538,13 @@ class Tr(object):
                             add(x.id)
                     elif isinstance(t, ast.Subscript) and isinstance(t.value, ast.Name):
                         add("kw_" + t.slice.value)
+                    elif isinstance(t, ast.Attribute):
+                        add("@" + ast.unparse(t))
             elif isinstance(s, ast.AugAssign):
                 if isinstance(s.target, ast.Name):
                     add(s.target.id)
+                elif isinstance(s.target, ast.Attribute):
+                    add("@" + ast.unparse(s.target))
                 elif isinstance(s.target, ast.Subscript):
                     add("kw_" + s.target.slice.value)
             elif isinstance(s, ast.If):
@@ -482,6 +589,33 @@ class Tr(object):
             return self.block(rest, env, k)
         if isinstance(s, (ast.Global, ast.ImportFrom, ast.Import)):
             return self.block(rest, env, k)
+        if isinstance(s, ast.Try):
+            # try: x = x.total_seconds() / except (TypeError, AttributeError): pass   -- offsets are ints or None
+            ok = (len(s.body) == 1 and isinstance(s.body[0], ast.Assign) and len(s.handlers) == 1
+                  and not s.orelse and not s.finalbody
+                  and len(s.handlers[0].body) == 1 and isinstance(s.handlers[0].body[0], ast.Pass))
+            if ok:
+                a = s.body[0]
+                ok = (isinstance(a.targets[0], ast.Name) and
+                      ast.unparse(a.value) == a.targets[0].id + ".total_seconds()")
+            if not ok:
+                raise TranslateError("try statement")
+            return self.block(rest, env, k)
+        if isinstance(s, ast.Expr) and isinstance(s.value, ast.Call) and ast.unparse(s.value.func) == "tzrange.__init__":
+            c = s.value
+            kws = {x.arg: x.value for x in c.keywords}
+            if len(c.args) != 5 or ast.unparse(c.args[0]) != "self" or set(kws) != {"start", "end"} or \
+                    any(not (isinstance(v, ast.Constant) and v.value is False) for v in kws.values()):
+                raise TranslateError("tzrange.__init__ call")
+            vals = [self.expr(a, env) for a in c.args[1:]]
+            if [v.ty for v in vals] != ["ONAME", "OZ", "ONAME", "OZ"] or not all(v.pure for v in vals):
+                raise TranslateError("tzrange.__init__ arguments %r" % [v.ty for v in vals])
+            env2 = dict(env)
+            for fld in ZONE_FIELDS:
+                env2["@self." + fld] = V("(%s z0_)" % ZONE_GET[fld], SLOTS[fld])
+            inner = self.block(rest, env2, k)
+            return V("(rbind (gen_tzrange_init %s AFalse AFalse) (fun z0_ => %s))" % (
+                " ".join(v.term for v in vals), self.lift(inner)), inner.ty, False)
         if isinstance(s, ast.Return):
             return self.ret(self.expr(s.value, env))
         if isinstance(s, ast.Raise):
@@ -492,8 +626,8 @@ class Tr(object):
             return V("(Err %s)" % code, self.ret_ty, False)
         if isinstance(s, ast.Assign) and len(s.targets) == 1:
             return self.assign(s.targets[0], s.value, rest, env, k)
-        if isinstance(s, ast.AugAssign) and isinstance(s.op, (ast.Sub, ast.Add)):
-            op = ast.Sub() if isinstance(s.op, ast.Sub) else ast.Add()
+        if isinstance(s, ast.AugAssign) and isinstance(s.op, (ast.Sub, ast.Add, ast.Mult)):
+            op = {ast.Sub: ast.Sub, ast.Add: ast.Add, ast.Mult: ast.Mult}[type(s.op)]()
             load = ast.parse(ast.unparse(s.target), mode="eval").body
             return self.assign(s.target, ast.BinOp(left=load, op=op, right=s.value), rest, env, k)
         if isinstance(s, ast.If):
@@ -534,6 +668,33 @@ class Tr(object):
             term = self.block(rest, env2, k)
             pre = "".join("let kw_%s := None in " % key for key in KW_KEYS if KW_TY[key] != "Z")
             return V("(%s%s)" % (pre, term.term), term.ty, term.pure, term.fold)
+        if isinstance(target, ast.Attribute) and isinstance(target.value, ast.Name):
+            key = "@" + ast.unparse(target)
+            if target.value.id == "self" and self.kind == "init" and target.attr in SLOTS:
+                want = SLOTS[target.attr]
+            elif env.get(target.value.id, V("", "")).ty == "TZRES" and target.attr in RES_ATTRS:
+                want = RES_ATTRS[target.attr][1]
+            else:
+                raise TranslateError("assignment to %s" % ast.unparse(target))
+            v = self.expr(value, env)
+            if v.ty == "NONE" and want == "DELTA":
+                v = V("DNone", "DELTA")
+            elif v.ty == "DARG" and want == "DELTA":
+                v = V("(delta_of_darg %s)" % v.term, "DELTA", False)
+            elif v.ty == "Z" and want == "OZ":
+                v = V("(Some %s)" % v.term, "OZ", v.pure)
+            elif v.ty == "DT" and want == "Z":
+                v = V(v.term, "Z", v.pure)
+            if v.ty != want:
+                raise TranslateError("%s = %s" % (ast.unparse(target), v.ty))
+            env2 = dict(env)
+            env2[key] = V(cn(key), want)
+            if target.attr in ("_s", "_dst_base_offset_") and target.value.id == "self":
+                # stored but not part of the zone record of the model (checked: a pure expression)
+                if not v.pure:
+                    raise TranslateError("impure value for %s" % key)
+                return self.let(cn(key), v, lambda: self.block(rest, env2, k))
+            return self.let(cn(key), v, lambda: self.block(rest, env2, k))
         v = self.expr(value, env)
         if isinstance(target, ast.Tuple) and len(target.elts) == 2 and all(isinstance(x, ast.Name) for x in target.elts):
             a, b = cn(target.elts[0].id), cn(target.elts[1].id)
@@ -574,16 +735,34 @@ class Tr(object):
         env_t, env_f = env, env
         opt = None                    # (scrutinee term, bound name, some_is_then)
         t = s.test
+        # `if X is None or C: <raise>`  ==  `if X is None: <raise>` ; `if C: <raise>`  (X is not None in C)
+        if isinstance(t, ast.BoolOp) and isinstance(t.op, ast.Or) and not s.orelse and self.returns(s.body) \
+                and isinstance(t.values[0], ast.Compare) and isinstance(t.values[0].ops[0], ast.Is):
+            first = ast.If(test=t.values[0], body=s.body, orelse=[])
+            others = t.values[1] if len(t.values) == 2 else ast.BoolOp(op=ast.Or(), values=t.values[1:])
+            second = ast.If(test=others, body=s.body, orelse=[])
+            return self.block([first, second] + rest, env, k)
+        # `if A and X is not None [and B]: body`  with X optional: X is narrowed inside body
+        if isinstance(t, ast.BoolOp) and isinstance(t.op, ast.And) and not s.orelse:
+            for i_, cj in enumerate(t.values):
+                if isinstance(cj, ast.Compare) and len(cj.ops) == 1 and isinstance(cj.ops[0], ast.IsNot) \
+                        and isinstance(cj.comparators[0], ast.Constant) and cj.comparators[0].value is None \
+                        and self.expr(cj.left, env).ty == "OZ":
+                    others = t.values[:i_] + t.values[i_ + 1:]
+                    inner_test = others[0] if len(others) == 1 else ast.BoolOp(op=ast.And(), values=others)
+                    inner = ast.If(test=inner_test, body=s.body, orelse=[])
+                    outer = ast.If(test=cj, body=[inner], orelse=[])
+                    return self.if_(outer, rest, env, k)
         if isinstance(t, ast.Compare) and len(t.ops) == 1 and isinstance(t.ops[0], (ast.Is, ast.IsNot)) \
                 and isinstance(t.comparators[0], ast.Constant) and t.comparators[0].value is None:
             subj = self.expr(t.left, env)
-            if subj.ty in ("OZ", "OTR") and subj.pure:
+            if subj.ty in ("OZ", "OTR", "OTZRES") and subj.pure:
                 nm = "n%d_" % len(self.tmp) if subj.ty == "OZ" else cn(ast.unparse(t.left))
                 self.tmp.append(nm)
                 some_then = isinstance(t.ops[0], ast.IsNot)
                 narrowed_env = dict(env)
                 k_ = t.left.id if isinstance(t.left, ast.Name) else "@" + ast.unparse(t.left)
-                narrowed_env[k_] = V(nm, "Z" if subj.ty == "OZ" else "TR")
+                narrowed_env[k_] = V(nm, {"OZ": "Z", "OTR": "TR", "OTZRES": "TZRES"}[subj.ty])
                 if some_then:
                     env_t = narrowed_env
                 else:
@@ -613,6 +792,16 @@ class Tr(object):
             b = self.block(s.orelse, env_f, k)
             return split(a, b)
         # join: both arms fall through
+        # an attribute of a known object that is assigned in an arm has its current value before the `if`
+        for n in self.assigned(s.body + s.orelse):
+            if n.startswith("@") and n not in env and not n.startswith("@self."):
+                try:
+                    cur = self.attribute(ast.parse(n[1:], mode="eval").body, env)
+                except TranslateError:
+                    continue
+                env, env_t, env_f = dict(env), dict(env_t), dict(env_f)
+                for e_ in (env, env_t, env_f):
+                    e_.setdefault(n, cur)
         # variables assigned in one arm only and not defined before are local to that arm (dropped)
         names = [n for n in self.assigned(s.body + s.orelse)
                  if n in env or (n in self.assigned(s.body) and n in self.assigned(s.orelse))]
@@ -620,7 +809,15 @@ class Tr(object):
             raise TranslateError("if statement without effect")
 
         def tup(env_):
-            vals = [env_[n] for n in names]
+            vals = []
+            for n in names:
+                v = env_[n]
+                want = env[n].ty if n in env else None
+                if n.startswith("@") and n.split(".")[-1] in RES_ATTRS and not n.startswith("@self."):
+                    want = RES_ATTRS[n.split(".")[-1]][1]
+                if want == "OZ" and v.ty == "Z":          # a narrowed optional falls through unchanged
+                    v = V("(Some %s)" % v.term, "OZ")
+                vals.append(v)
             return V(vals[0].term if len(vals) == 1 else "(" + ", ".join(v.term for v in vals) + ")", "JOIN")
         kw_before = list(self.kw_seen)
         a = self.block(s.body, env_t, tup)
@@ -635,6 +832,8 @@ class Tr(object):
         for n in names:
             old = env.get(n)
             ty = old.ty if old is not None else self.join_type(n, s, env)
+            if n.startswith("@") and n.split(".")[-1] in RES_ATTRS and not n.startswith("@self."):
+                ty = RES_ATTRS[n.split(".")[-1]][1]
             env2[n] = V(cn(n), ty, True, "false" if ty in ("DT", "DTF") else None)
         pat = cn(names[0]) if len(names) == 1 else "'(" + ", ".join(cn(n) for n in names) + ")"
         inner = self.block(rest, env2, k)
@@ -651,6 +850,8 @@ class Tr(object):
                 return KW_TY[n[3:]]
         if n.startswith("kw_"):
             return KW_TY[n[3:]]
+        if n.startswith("@self.") and n[6:] in SLOTS:
+            return SLOTS[n[6:]]
         raise TranslateError("type of joined variable %s" % n)
 
     def ite(self, c, a, b):
@@ -689,6 +890,11 @@ class Tr(object):
                 binders.append("(%s : %s)" % (cn(p), COQTY[ty]))
 
         def fall(env_):
+            if self.kind == "init":
+                missing = [f_ for f_ in ZONE_FIELDS if "@self." + f_ not in env_]
+                if missing:
+                    raise TranslateError("__init__ does not set %r" % missing)
+                return V("(mkZone %s)" % " ".join(env_["@self." + f_].term for f_ in ZONE_FIELDS), "ZONE")
             raise TranslateError("a path falls off the end of the method (implicit return None)")
         body = self.block(fn.body, env, fall)
         rty = COQTY[self.ret_ty]
@@ -728,21 +934,25 @@ def lock_discipline(tree):
     return not bad
 
 
+HEADER = ["(* GENERATED by harness/gen_posix.py from /repo/src/dateutil -- do not edit. *)",
+          "From Coq Require Import ZArith List Bool.",
+          "From V Require Import base.Cal posix.PTime posix.RDelta posix.TzParseModel posix.TzRangeModel",
+          "     posix.PosixSpec posix.TzLocalModel posix.IcalModel posix.PosixGenBase.",
+          "Import ListNotations.", "Open Scope Z_scope.", ""]
+
+
 def main():
     trees = {}
-    out = ["(* GENERATED by harness/gen_posix.py from %s/src/dateutil -- do not edit. *)" % "/repo",
-           "From Coq Require Import ZArith List Bool.",
-           "From V Require Import base.Cal posix.PTime posix.RDelta posix.TzParseModel posix.TzRangeModel",
-           "     posix.PosixSpec posix.TzLocalModel posix.IcalModel.",
-           "Import ListNotations.", "Open Scope Z_scope.", ""]
+    outs = {False: list(HEADER), True: list(HEADER)}       # keyed by "belongs to the iCalendar file"
     failed = []
     for spec in METHODS:
+        ical = spec[1] in ("_tzicalvtz", "tzical")
+        out = outs[ical]
         path = os.path.join(REPO, "src", "dateutil", spec[0])
-        if path not in trees:
-            trees[path] = ast.parse(open(path).read())
         t = Tr(spec)
-        t.ret_spec = spec[6]
         try:
+            if path not in trees:
+                trees[path] = ast.parse(open(path).read())
             fn = find_method(trees[path], spec[1], spec[2])
             if fn is None:
                 raise TranslateError("method not found")
@@ -752,24 +962,43 @@ def main():
             out.append("(* %s.%s  (%s, line %d) *)" % (spec[1], spec[2], spec[0], fn.lineno))
             out.append(text)
             out.append("")
-        except TranslateError as ex:
+        except (TranslateError, SyntaxError, OSError) as ex:
             failed.append("%s.%s: %s" % (spec[1], spec[2], ex))
             out.append("(* TRANSLATE-ERROR %s.%s: %s *)" % (spec[1], spec[2], str(ex).replace("*)", "* )")))
             out.append("")
+    out = outs[True]
     try:
         ok = lock_discipline(trees[os.path.join(REPO, "src", "dateutil", "tz/tz.py")])
         out.append("(* _tzicalvtz._find_comp: every access to _cachedate / _cachecomp happens inside")
         out.append("   `with self._cache_lock` (the hit path reads _cachecomp[idx] under the lock) *)")
         out.append("Definition gen_cache_access_under_lock : bool := %s." % ("true" if ok else "false"))
         out.append("")
-    except TranslateError as ex:
+    except (TranslateError, KeyError) as ex:
         failed.append("lock discipline: %s" % ex)
         out.append("(* TRANSLATE-ERROR lock discipline: %s *)" % ex)
-    txt = "\n".join(out) + "\n"
-    outp = os.environ.get("POSIXGEN_OUT", OUT)
-    os.makedirs(os.path.dirname(outp), exist_ok=True)
-    if not os.path.exists(outp) or open(outp).read() != txt:
-        open(outp, "w").write(txt)
+    # tzical._parse_rfc builds each component's recurrence set with rrulestr(..., compatible=True, ...):
+    # compatible=True is what makes DTSTART itself an onset (the first onset of comp_daylight /
+    # comp_standard in the C17 theorems)
+    try:
+        fn = find_method(trees[os.path.join(REPO, "src", "dateutil", "tz/tz.py")], "tzical", "_parse_rfc")
+        calls = [n for n in ast.walk(fn) if isinstance(n, ast.Call) and ast.unparse(n.func) == "rrule.rrulestr"]
+        if len(calls) != 1:
+            raise TranslateError("expected exactly one rrule.rrulestr call in tzical._parse_rfc")
+        kws = {k.arg: k.value for k in calls[0].keywords}
+        flag = (isinstance(kws.get("compatible"), ast.Constant) and kws["compatible"].value is True and
+                isinstance(kws.get("ignoretz"), ast.Constant) and kws["ignoretz"].value is True)
+        out.append("(* tzical._parse_rfc: rrule.rrulestr(..., compatible=True, ignoretz=True, ...) *)")
+        out.append("Definition gen_rrulestr_dtstart_is_onset : bool := %s." % ("true" if flag else "false"))
+        out.append("")
+    except (TranslateError, KeyError, AttributeError) as ex:
+        failed.append("rrulestr call: %s" % ex)
+        out.append("(* TRANSLATE-ERROR rrulestr call: %s *)" % ex)
+    for ical, default in ((False, OUT), (True, OUT2)):
+        txt = "\n".join(outs[ical]) + "\n"
+        outp = os.environ.get("POSIXGEN_OUT2" if ical else "POSIXGEN_OUT", default)
+        os.makedirs(os.path.dirname(outp), exist_ok=True)
+        if not os.path.exists(outp) or open(outp).read() != txt:
+            open(outp, "w").write(txt)
     for f in failed:
         print("gen_posix: TRANSLATE-ERROR", f)
     return 0
